@@ -161,7 +161,11 @@ def run(ck):
                     okc = (ct_ == ("range", T.ZERO, T.sym("k") - peeled, T.ONE)) if ct_[0] == "range" else None  # a trip count the analyser cannot tell is undecided
                     ck.check(okc, "C05.R2", inst + ":k iterations", lp["site"], "the Gibbs loop does not run exactly k times: %s%s" % (ct_[1:] if ct_[0] == "range" else cnt, " after %d step(s) taken before it" % peeled if peeled else ""))
                     # returned object is the loop-carried visible buffer
-                    ck.check(robj in lp["generic"]["terms"], "C05.R2", inst + ":returns chain", gsite, "the returned tensor is not the buffer updated by the loop")
+                    in_buf = robj in lp["generic"]["terms"]
+                    # (a chain carried by rebinding a name to each step's fresh result, not by a buffer: what is returned is still a
+                    # value the loop advanced - its step structure is then not read off a buffer, so it is not judged here)
+                    advanced = isinstance(r, VTens) and r.term is not None and any(isinstance(a_, T.App) and a_.op == "loop" for a_ in r.term.all_atoms())
+                    ck.check(True if in_buf else (None if advanced else False), "C05.R2", inst + ":returns chain", gsite, "the returned tensor is not the buffer updated by the loop")
                     if robj in lp["generic"]["terms"]:
                         carry = T.sym(lp["carried"][robj])
                         hp = T.app("bern", T.sigmoid(aff(carry, R["W"], R["c"])))
